@@ -13,6 +13,6 @@ Extraction "wtmodel.ml"
   parse_archive_info_list archive_list_string method_of_string method_string flag_method
   fl_flag_xff fl_sub fl_of_int gen_verdict gen_ok q_escape q_unescape parse_query textout_status textout_runs
   handle_view handle_sum handle_view_raw view_query client_view client_view_raw parse_command run_copies run_sum_copies wget copy_one diff_one sum_item sum_copy_item sum_diff_item run_diffs view_cmd view_raw_cmd generate_cmd generate_checked read_file
-  has_meta is_base_url path_clean path_join eq_range_step series_equal diff_points series_points points_equal points_diff
+  has_meta is_base_url path_clean path_join phys_name eq_range_step series_equal diff_points series_points points_equal points_diff
   open_image image_handle gw_fetch encode_image counter_final
   flocq_fops.
